@@ -131,7 +131,26 @@ def mutants(names):
     return 1 if missed else 0
 
 
+def workers(props=("C01", "C02", "C07", "C10"), n=400):
+    """Same run indices at worker counts 1, 4 and 16 must give the same (order-independent) digest of all runs."""
+    bad = 0
+    for prop in props:
+        seen = {}
+        for nproc in (1, 4, 16):
+            env = dict(os.environ, RELSIM_NPROC=str(nproc), RELSIM_MAX_RUNS=str(n), RELSIM_BUDGET="600",
+                       RELSIM_EVIDENCE_DIR=tempfile.gettempdir())
+            p = subprocess.run(["./check", prop, "quick"], cwd=VERIF, env=env, capture_output=True, text=True, timeout=1200)
+            ev = json.load(open(os.path.join(tempfile.gettempdir(), f"{prop}.json")))
+            seen[nproc] = (ev["coverage"]["runs_digest_xor"], ev["coverage"]["runs"])
+        ok = len(set(seen.values())) == 1
+        print(("same " if ok else "DIFFERENT ") + prop, seen)
+        bad += not ok
+    return 1 if bad else 0
+
+
 def main(argv):
+    if argv and argv[0] == "workers":
+        return workers()
     if not argv or argv[0] == "determinism":
         return determinism(int(argv[1]) if len(argv) > 1 else 150)
     if argv[0] == "digests":
